@@ -56,6 +56,17 @@ Theorem C16_apply_keeps_suffix : forall change rest (f : file) adds,
 Proof. exact apply_keeps_suffix. Qed.
 Print Assumptions C16_apply_keeps_suffix.
 
+(* the replacement replace_node / remove_node build for a statement spanning lines a..b
+   (Replacement(range(a, b + 1), new_lines)): every line outside [a, b] is kept in place and
+   order, the range is replaced by exactly the new lines — `[]` for a removal, the `pass` line
+   for a removal that would empty a block, the re-written statement otherwise *)
+Theorem C16_statement_replacement : forall (f : file) a b adds rest,
+  1 <= a -> a <= b -> b <= length f ->
+  Fixer.apply_changes (mk_repl (seq a (S (b - a))) (Some adds) :: rest) f
+  = firstn (a - 1) f ++ adds ++ skipn b f.
+Proof. exact apply_range. Qed.
+Print Assumptions C16_statement_replacement.
+
 (* the add-ignore replacement (after the repair repo_fixes/C16-add-ignore-trailing-fallback) is exactly:
    append a trailing comment to the reported line when a comment line above cannot work, otherwise
    insert the comment line above it *)
